@@ -62,6 +62,9 @@ pub fn install_panic_hook() {
             .cloned()
             .or_else(|| i.payload().downcast_ref::<&str>().map(|s| s.to_string()))
             .unwrap_or_else(|| "<non-string payload>".into());
+        if std::env::var_os("VERIF_DEBUG").is_some() {
+            eprintln!("[panic] {file}:{line}: {msg}");
+        }
         LAST_PANIC.with(|p| *p.borrow_mut() = Some(PanicInfo { file, line, msg }));
     }));
 }
@@ -511,7 +514,7 @@ fn spawn_child(id_args: &[String], space: &str) -> Child {
         .args(id_args)
         .stdin(std::process::Stdio::piped())
         .stdout(std::process::Stdio::piped())
-        .stderr(std::process::Stdio::null())
+        .stderr(std::process::Stdio::inherit())
         .spawn()
         .expect("spawn worker");
     let stdin = p.stdin.take().unwrap();
@@ -741,7 +744,13 @@ pub fn run_check(id: &'static str, build: impl FnOnce(&Ctx) -> CheckDef) -> ! {
             let tier = if mode == "thorough" { Tier::Thorough } else { Tier::Quick };
             let ctx = Ctx { tier, seed };
             let t0 = Instant::now();
-            let def = build(&ctx);
+            let def = match guard(|| build(&ctx)) {
+                Ok(d) => d,
+                Err(p) => {
+                    eprintln!("MACHINERY: building the case spaces of {id} panicked at {}:{}: {}", p.file, p.line, p.msg);
+                    std::process::exit(2);
+                }
+            };
             run_all(id, def, &ctx, t0)
         }
         "replay" => {
